@@ -18,15 +18,23 @@ def q_of(c, qn):
 
 
 MAPS = [(1, 0), (0.5, -3.0), (2.0 ** 20, 0.0)]
+# identifiers are whatever the caller uses: positions from 1, from 0 (enumerate - 0 is falsy), strings, tuples, sparse numbers
+ID_SCHEMES = [lambda i: i + 1, lambda i: i, lambda i: "path%d" % i, lambda i: (i // 3, i % 3), lambda i: 10 * i + 7]
+
+
+def id_maps(n, scheme):
+    mk = ID_SCHEMES[scheme % len(ID_SCHEMES)]
+    return [mk(i) for i in range(n)], {mk(i): i + 1 for i in range(n)}
 
 
 def run_instance(rt, boxes, hitsv, qn, a, b, stride, phase):
     """Build the real index over `boxes` (ids 1..n) and compare every query with the abstract mask."""
     f = lambda x: a * x + b  # noqa: E731
     n = len(boxes)
+    ids, back = id_maps(n, phase)
     try:
         with vlib.time_limit(5.0):
-            idx = rt.Index([(i + 1, (f(bx[0]), f(bx[1]), f(bx[2]), f(bx[3]))) for i, bx in enumerate(boxes)])
+            idx = rt.Index([(ids[i], (f(bx[0]), f(bx[1]), f(bx[2]), f(bx[3]))) for i, bx in enumerate(boxes)])
     except (RecursionError, vlib.CallTimeout) as ex:
         return [("build.terminates", None, type(ex).__name__, None)], 0
     bad = []
@@ -44,7 +52,7 @@ def run_instance(rt, boxes, hitsv, qn, a, b, stride, phase):
             break
         nq += 1
         want = {i + 1 for i in range(n) if (m >> i) & 1}
-        res = set(got)
+        res = {back.get(g, -1) for g in got}            # back to positions; -1: an identifier nobody supplied
         try:
             got.clear()                  # the result belongs to the caller: emptying it must not change what the index answers later
         except Exception:  # pylint: disable=broad-except
@@ -78,10 +86,12 @@ def record(rt, rng, ncoll, nq):
             boxes.append(list(rng.choice(boxes)))            # duplicate
         asf = rng.random() < 0.5
         cf = float if asf else (lambda z: z)
-        evs.append({"ev": "build", "boxes": boxes, "asfloat": asf})
+        scheme = rng.randrange(len(ID_SCHEMES))
+        ids, back = id_maps(len(boxes), scheme)
+        evs.append({"ev": "build", "boxes": boxes, "asfloat": asf, "ids": scheme})
         try:
             with vlib.time_limit(10.0):
-                idx = rt.Index([(i + 1, tuple(cf(v) for v in bx)) for i, bx in enumerate(boxes)])
+                idx = rt.Index([(ids[i], tuple(cf(v) for v in bx)) for i, bx in enumerate(boxes)])
         except (RecursionError, vlib.CallTimeout):
             idx = None
         for _q in range(nq):
@@ -100,7 +110,7 @@ def record(rt, rng, ncoll, nq):
             try:
                 with vlib.time_limit(5.0):
                     raw = idx.intersection(tuple(cf(v) for v in q))
-                res = sorted(raw)
+                res = sorted(back.get(g, -1) for g in raw)
                 try:
                     raw.clear()          # see run_instance
                 except Exception:  # pylint: disable=broad-except
@@ -159,7 +169,7 @@ def run(ctx):
                 ctx.distinct.add((ci, ninst, mi))
                 for clause, want, got, q in bad:
                     degenerate = any(bx[0] == bx[2] or bx[1] == bx[3] for bx in boxes)
-                    ctx.violation(clause, {"mode": "G", "boxes": boxes, "q": q, "map": [a, b]}, want, got,
+                    ctx.violation(clause, {"mode": "G", "boxes": boxes, "q": q, "map": [a, b], "ids": (ninst + ctx.seed) % len(ID_SCHEMES)}, want, got,
                                   input_class="degenerate-box" if degenerate else None)
             if ninst % 2503 == 1:
                 ctx.sample({"mode": "G", "boxes": boxes, "query_masks_head": hitsv[:12]})
@@ -181,7 +191,7 @@ def run(ctx):
             ctx.skipped += 1
         elif v != "ok":
             degenerate = any(bx[0] == bx[2] or bx[1] == bx[3] for bx in cur["boxes"])
-            ctx.violation(v, {"mode": "V", "boxes": cur["boxes"], "asfloat": cur["asfloat"], "q": e["q"]}, None, e["res"],
+            ctx.violation(v, {"mode": "V", "boxes": cur["boxes"], "asfloat": cur["asfloat"], "ids": cur["ids"], "q": e["q"]}, None, e["res"],
                           input_class="degenerate-box" if degenerate else None)
     ctx.distinct.update(("V", i) for i in range(ncoll))
     ctx.traces += ncoll
@@ -189,7 +199,8 @@ def run(ctx):
     ctx.stage("V", kind="code->spec", collections=ncoll, events=len(evs), rejected=sum(1 for v in verdicts if v not in ("ok", "skip")))
     ctx.trusted += ["TLC 1.8", "vlib TLA value parser", "harness/c14.py query decoding (q_of mirrors RTree!QOf)"]
     ctx.assumptions += ["boxes and queries on integer lattices (and exact affine images); centre rounding off-lattice is not modelled",
-                        "ids are list positions 1..n"]
+                        "identifiers rotate over five schemes (1-based, 0-based, strings, tuples, sparse numbers) and are mapped back to positions before judging",
+                        "the set an intersection() call returns belongs to the caller: the harness empties it, which must not change later answers"]
     return ctx.finish(
         rule="G: every multiset of <=3 boxes (corners {0,2,4}) [thorough: also <=4 boxes on {0,2}] built by the real Index, queried with "
              "the lattice of query boxes (quick: every 3rd query, rotating), expected set = abstract Hits mask from the TLC state; "
@@ -207,9 +218,10 @@ def replay(rec):
         cf = lambda x: a * x + b  # noqa: E731
     else:
         cf = float if c.get("asfloat") else (lambda z: z)
-    idx = rt.Index([(i + 1, tuple(cf(v) for v in bx)) for i, bx in enumerate(c["boxes"])])
+    ids, back = id_maps(len(c["boxes"]), c.get("ids", 0))
+    idx = rt.Index([(ids[i], tuple(cf(v) for v in bx)) for i, bx in enumerate(c["boxes"])])
     q = c["q"]
-    got = sorted(idx.intersection(tuple(cf(v) for v in q)))
+    got = sorted(back.get(g, -1) for g in idx.intersection(tuple(cf(v) for v in q)))
     ctx = vlib.Ctx("C14", "quick", 0, LEVEL, fresh=False)
     v = validate(ctx, "replay", [{"ev": "build", "boxes": c["boxes"], "asfloat": False},
                                  {"ev": "q", "q": q, "res": got, "raised": False}])[1]
